@@ -56,6 +56,13 @@ structure Cfg where
   namesPerLine : Nat
 deriving Repr, DecidableEq, Inhabited
 
+/-- a query of the bot the server still has to answer -/
+inductive Req
+  | who (chan : Str)
+  | mode (chan : Str)
+  | bans (chan : Str)
+deriving Repr, DecidableEq, Inhabited
+
 structure Srv where
   cfg : Cfg
   /-- lowered nick ↦ user -/
@@ -64,6 +71,13 @@ structure Srv where
   chans : List (Str × SChan) := []
   /-- the bot's current nick, as the server spells it -/
   bot : Str
+  /-- users (lowered nick) whose current hostmask the server has shown to the bot -/
+  told : List Str := []
+  /-- channels (lowered name) for which the bot got RPL_CHANNELMODEIS / the ban list since it joined -/
+  modesSynced : List Str := []
+  bansSynced : List Str := []
+  /-- queries of the bot not answered yet, oldest first -/
+  pending : List Req := []
 deriving Repr, DecidableEq, Inhabited
 
 /-! ### what a server accepts as names -/
@@ -127,6 +141,8 @@ inductive Act
   | modeis (chan : Str)
   /-- the reply to a MODE +b query -/
   | banlist (chan : Str)
+  /-- the server answers the oldest pending query of the bot -/
+  | serve
   | reconnect
 deriving Repr, DecidableEq, Inhabited
 
@@ -208,14 +224,52 @@ def Srv.banList (s : Srv) (sc : SChan) : List Ev :=
   sc.bans.map (fun m => emit s.cfg.server "367" [s.bot, sc.name, m, s.cfg.server, ['0']]) ++
     [emit s.cfg.server "368" [s.bot, sc.name, "End of channel ban list".toList]]
 
-/-- everything the bot receives after its own JOIN of `sc` (the replies to the WHO / MODE /
-MODE +b it sends on joining included) -/
+/-- what a joining client gets without asking: topic (if any) and NAMES -/
 def Srv.joinBurst (s : Srv) (sc : SChan) : List Ev :=
   (if sc.topic.isEmpty then [] else
     [emit s.cfg.server "332" [s.bot, sc.name, sc.topic],
      emit s.cfg.server "333" [s.bot, sc.name, s.cfg.server, ['0']]]) ++
-  s.namesReply sc ++ s.whoReply sc ++ [s.modeIs sc, emit s.cfg.server "329" [s.bot, sc.name, sc.created]] ++
-  s.banList sc
+  s.namesReply sc
+
+def addAll (l : List Str) (xs : List Str) : List Str := xs.foldl sadd l
+
+def SChan.keys (sc : SChan) : List Str := sc.members.map (·.1)
+
+/-- the bot's queries as the server reads them -/
+def reqOf (m : Msg) : Option Req :=
+  if m.cmd = "WHO".toList then
+    match m.args with
+    | c :: _ => some (.who c)
+    | [] => none
+  else if m.cmd = "MODE".toList then
+    match m.args with
+    | [c] => some (.mode c)
+    | [c, a] => if a = "+b".toList then some (.bans c) else none
+    | _ => none
+  else none
+
+def Srv.enqueue (s : Srv) (out : List Msg) : Srv := { s with pending := s.pending ++ out.filterMap reqOf }
+
+/-- reply to WHO: one line per member, whether or not the bot is (still) on the channel -/
+def Srv.replyWho (s : Srv) (c : Str) : Srv × List Ev :=
+  match s.chan c with
+  | some sc => ({ s with told := addAll s.told sc.keys }, s.whoReply sc)
+  | none => (s, [])
+
+/-- reply to MODE <channel>: 324 and 329 -/
+def Srv.replyMode (s : Srv) (c : Str) : Srv × List Ev :=
+  match s.chan c with
+  | some sc =>
+    ({ s with modesSynced := if s.botIn sc then sadd s.modesSynced (lower c) else s.modesSynced },
+     [s.modeIs sc, emit s.cfg.server "329" [s.bot, sc.name, sc.created]])
+  | none => (s, [])
+
+/-- reply to MODE <channel> +b: the ban list -/
+def Srv.replyBans (s : Srv) (c : Str) : Srv × List Ev :=
+  match s.chan c with
+  | some sc =>
+    ({ s with bansSynced := if s.botIn sc then sadd s.bansSynced (lower c) else s.bansSynced }, s.banList sc)
+  | none => (s, [])
 
 /-! ### transitions -/
 
@@ -243,18 +297,20 @@ def Srv.joinOthers (s : Srv) (k : Str) : List Str → Srv × List Str
       let r := s1.joinOthers k cs
       (r.1, if (s.chan c).any s.botIn then name :: r.2 else r.2)
 
-/-- the bot's own JOIN: one JOIN + burst per channel -/
+/-- the bot's own JOIN: one JOIN + topic + NAMES per channel; its record of the channel starts afresh -/
 def Srv.joinBot (s : Srv) (u : SUser) : List Str → Srv × List Ev
   | [] => (s, [])
   | c :: cs =>
     match s.enter s.botKey c with
     | none => s.joinBot u cs
     | some (s1, name) =>
-      let burst := match s1.chan c with
-        | some sc => s1.joinBurst sc
-        | none => []
-      let r := s1.joinBot u cs
-      (r.1, emit u.mask "JOIN" (joinArgs s.cfg name) :: burst ++ r.2)
+      match s1.chan c with
+      | none => s1.joinBot u cs
+      | some sc =>
+        let s2 : Srv := { s1 with modesSynced := sdel s1.modesSynced (lower c), bansSynced := sdel s1.bansSynced (lower c),
+                                  told := if s1.cfg.uhnames then addAll (sadd s1.told s1.botKey) sc.keys else sadd s1.told s1.botKey }
+        let r := s2.joinBot u cs
+        (r.1, emit u.mask "JOIN" (joinArgs s.cfg name) :: s1.joinBurst sc ++ r.2)
 
 /-- PART: channels left (server spelling), and which of them the bot saw -/
 def Srv.leave (s : Srv) (k : Str) : List Str → Srv × List Str
@@ -354,7 +410,7 @@ def Srv.dropEverywhere (s : Srv) (k : Str) : Srv :=
 def Srv.step (s : Srv) : Act → Srv × List Ev
   | .connect n i h =>
     if validNick n && validWord i && validWord h && (s.user n).isNone then
-      ({ s with users := aset s.users (lower n) ⟨n, i, h⟩ }, [])
+      ({ s with users := aset s.users (lower n) ⟨n, i, h⟩, told := sdel s.told (lower n) }, [])
     else (s, [])
   | .join n cs =>
     match s.user n with
@@ -363,7 +419,8 @@ def Srv.step (s : Srv) : Act → Srv × List Ev
       if lower n = s.botKey then s.joinBot u cs
       else
         let r := s.joinOthers (lower n) cs
-        (r.1, if r.2.isEmpty then [] else [emit u.mask "JOIN" (joinArgs s.cfg (commaJoin r.2))])
+        if r.2.isEmpty then (r.1, [])
+        else ({ r.1 with told := sadd r.1.told (lower n) }, [emit u.mask "JOIN" (joinArgs s.cfg (commaJoin r.2))])
   | .part n cs reason =>
     match s.user n with
     | none => (s, [])
@@ -386,7 +443,7 @@ def Srv.step (s : Srv) : Act → Srv × List Ev
     | some u =>
       if lower n = s.botKey || !validText reason then (s, [])
       else
-        ({ s.dropEverywhere (lower n) with users := adel s.users (lower n) },
+        ({ s.dropEverywhere (lower n) with users := adel s.users (lower n), told := sdel s.told (lower n) },
          if s.visible (lower n) then [emit u.mask "QUIT" [reason]] else [])
   | .nick n n' =>
     match s.user n with
@@ -397,7 +454,8 @@ def Srv.step (s : Srv) : Act → Srv × List Ev
         let isBot := lower n = s.botKey
         ({ s with users := aset (adel s.users (lower n)) (lower n') { u with nick := n' },
                   chans := s.chans.map (fun p => (p.1, { p.2 with members := renameKey p.2.members (lower n) (lower n') })),
-                  bot := if isBot then n' else s.bot },
+                  bot := if isBot then n' else s.bot,
+                  told := if isBot || s.visible (lower n) then sadd (sdel s.told (lower n)) (lower n') else sdel (sdel s.told (lower n)) (lower n') },
          if isBot || s.visible (lower n) then [emit u.mask "NICK" [n']] else [])
   | .mode src c changes =>
     match s.source src, s.chan c with
@@ -418,26 +476,29 @@ def Srv.step (s : Srv) : Act → Srv × List Ev
     match s.user n with
     | none => (s, [])
     | some u =>
-      if !s.cfg.chghost || !validWord i || !validWord h then (s, [])
-      else ({ s with users := aset s.users (lower n) { u with ident := i, host := h } },
-            if lower n = s.botKey || s.visible (lower n) then [emit u.mask "CHGHOST" [i, h]] else [])
+      if !validWord i || !validWord h then (s, [])
+      else if s.cfg.chghost && (lower n = s.botKey || s.visible (lower n)) then
+        ({ s with users := aset s.users (lower n) { u with ident := i, host := h }, told := sadd s.told (lower n) },
+         [emit u.mask "CHGHOST" [i, h]])
+      else if lower n = s.botKey then (s, [])     -- without the capability the bot's own host change is not modelled
+      else
+        -- nobody tells the bot: the user is out of sight, or the capability was not negotiated
+        ({ s with users := aset s.users (lower n) { u with ident := i, host := h }, told := sdel s.told (lower n) }, [])
   | .names c =>
     match s.chan c with
-    | some sc => (s, if s.botIn sc then s.namesReply sc else [])
+    | some sc =>
+      if s.botIn sc then ({ s with told := if s.cfg.uhnames then addAll s.told sc.keys else s.told }, s.namesReply sc)
+      else (s, [])
     | none => (s, [])
-  | .who c =>
-    -- the reply to a WHO query (the bot sends one on joining; the reply may come after it has left again)
-    match s.chan c with
-    | some sc => (s, s.whoReply sc)
-    | none => (s, [])
-  | .modeis c =>
-    match s.chan c with
-    | some sc => (s, [s.modeIs sc, emit s.cfg.server "329" [s.bot, sc.name, sc.created]])
-    | none => (s, [])
-  | .banlist c =>
-    match s.chan c with
-    | some sc => (s, s.banList sc)
-    | none => (s, [])
+  | .who c => s.replyWho c
+  | .modeis c => s.replyMode c
+  | .banlist c => s.replyBans c
+  | .serve =>
+    match s.pending with
+    | [] => (s, [])
+    | .who c :: rest => ({ s with pending := rest }).replyWho c
+    | .mode c :: rest => ({ s with pending := rest }).replyMode c
+    | .bans c :: rest => ({ s with pending := rest }).replyBans c
   | .reconnect =>
     match aget s.users s.botKey with
     | none => (s, [])
@@ -446,7 +507,7 @@ def Srv.step (s : Srv) : Act → Srv × List Ev
       else
         let s1 := s.dropEverywhere s.botKey
         ({ s1 with users := aset (adel s1.users s.botKey) (lower s.cfg.botNick) { u with nick := s.cfg.botNick },
-                   bot := s.cfg.botNick },
+                   bot := s.cfg.botNick, told := [], modesSynced := [], bansSynced := [], pending := [] },
          [.reset, emit s.cfg.server "001" [s.cfg.botNick, "Welcome".toList]])
 
 def Cfg.valid (c : Cfg) : Bool :=
@@ -464,8 +525,15 @@ def Bot.recv (b : Bot) : Ev → Bot
 
 def Bot.recvAll (b : Bot) (es : List Ev) : Bot := es.foldl Bot.recv b
 
+/-- what the bot sends while receiving `es` -/
+def Bot.outAll (b : Bot) : List Ev → List Msg
+  | [] => []
+  | .msg m :: es => b.out m ++ (b.recv (.msg m)).outAll es
+  | .reset :: es => b.reset.outAll es
+
+/-- one action: the server acts, the bot receives what the server emits, the server reads what the bot sends -/
 def run (s : Srv) (b : Bot) : List Act → Srv × Bot
   | [] => (s, b)
-  | a :: as => run (s.step a).1 (b.recvAll (s.step a).2) as
+  | a :: as => run ((s.step a).1.enqueue (b.outAll (s.step a).2)) (b.recvAll (s.step a).2) as
 
 end C10
